@@ -184,7 +184,7 @@ theorem step_safe (hc : CfgOK c) (hcu : CfgOK cu) (hw : WFW c cu w) (op : Op) (h
   case idx i => exact Or.inl (obs_ok hw (index_safe hs ha))
   case front => exact Or.inl (obs_ok hw (front_safe hs))
   case back => exact Or.inl (obs_ok hw (back_safe hs))
-  case stream => exact Or.inl (obs_ok hw (cstrView_safe hs))
+  case stream => exact Or.inl (obs_ok hw (streamView_safe hs))
   case iterFwd => exact Or.inl (obs_ok hw (iterFwd_safe hs))
   case iterCFwd => exact Or.inl (obs_ok hw (iterFwd_safe hs))
   case iterRev => exact Or.inl (obs_ok hw (iterRev_safe hs))
